@@ -32,7 +32,8 @@ func max(a, b int) int {
 
 func Render(w io.Writer, tm *t.Map, src []t.Token, comments []string) (err error) {
 	if len(src) == 0 {
-		return nil
+		// There are no tokens, but there may still be comments to keep.
+		return renderOnlyComments(w, comments)
 	}
 
 	const maxIndent = 0xFFFF
@@ -219,6 +220,29 @@ func Render(w io.Writer, tm *t.Map, src []t.Token, comments []string) (err error
 		}
 	}
 
+	return nil
+}
+
+// renderOnlyComments renders a source file that has comments but no tokens.
+func renderOnlyComments(w io.Writer, comments []string) (err error) {
+	buf := make([]byte, 0, 1024)
+	prevLine := -1
+	for line := range comments {
+		buf = appendComment(buf[:0], comments, uint32(line), 0, true)
+		if len(buf) == 0 {
+			continue
+		}
+		if (prevLine >= 0) && (line > prevLine+1) {
+			if _, err = w.Write(newLine); err != nil {
+				return err
+			}
+		}
+		buf = append(buf, '\n')
+		if _, err = w.Write(buf); err != nil {
+			return err
+		}
+		prevLine = line
+	}
 	return nil
 }
 
